@@ -5,7 +5,7 @@ This module judges only C01's clauses: returned assignments (solution and every 
 clauses and assumptions and are pairwise distinct; machine rejections of solution / blocking-clause events or a
 result_of mismatch are reported; the machine is replayed with the RUP guards off (chk = false), which C01's theorems allow.
 """
-from harness.core import Ctx
+from harness.core import COQ, Ctx
 from harness.props import sat_common as SC
 
 ID = "C01"
@@ -18,8 +18,13 @@ def run(ctx: Ctx):
                 "budgets; pigeonhole, parity chains, 18-variable cumulative encoding; non-trivial = conflict analysis produced >=1 learned "
                 "clause AND >=1 assignment was returned; distinct = canonical JSON of (clauses, assumptions, options)")
     ctx.proof_step(["C01"])
+    if (COQ / "Props" / "C01_deep.v").exists(): ctx.proof_step(["C01"], props_file="Props/C01_deep.v")  # noqa: E701
     ctx.notes += SC.NOTES + SC.NOTES_C01
     SC.run_engine(ctx, "C01")
+    try:  # stretch C01_algorithm: exact correspondence with the faithful model coq/C01/DeepCdcl.v
+        from harness.props import C01_deep; C01_deep.run_part(ctx)  # noqa: E702
+    except ImportError:
+        pass
 
 
 def replay(obj):
